@@ -254,7 +254,7 @@ def linked_vec_check(repo, workdir):
     if pr.returncode == 0 and 'Axioms:' not in out:
         res = {'status': 'holds', 'closed_under_global_context': out.count('Closed under the global context'),
                'theorems': ['regenerated_reader_is_list_reader : forall A (p : prog A) l, grun GenSliceReader p l = run p l',
-                            'G_decode_on_regenerated_reader', 'G_C02_on_regenerated_reader', 'G_C18_reader_refines_cursor',
+                            'G_decode_on_regenerated_reader', 'G_C02_on_regenerated_reader', 'G_C18_reader_refines_cursor', 'G_C18_writer_step',
                             'G_C17_FramingCapabilities / _BearerCapabilities / _BearerType / _FramingType',
                             'regenerated_hide_is_model : forall a secret rv lp ap, gen_hide a secret rv lp ap = m_hide md5 a secret rv lp ap',
                             'regenerated_reveal_is_model', 'G_C11_hide_reveal', 'G_C12_hide_is_rfc', 'G_C12_reveal_is_rfc', 'G_C13_reveal_total'],
